@@ -55,6 +55,9 @@ CHECKS = {
  "C16": dict(cat="exploration", tech="metamorphic partition comparison + reference fired-set oracle over the real MultiEventSyncer on ethfake/pgmem",
    text="Generated chains with trigger registrations, expiries and matching/non-matching logs at every relative offset are synced under 6 partitions of the head sequence (block by block, one jump, random jumps, range limits 1..7, detour over an abandoned fork), each on its own database; every partition's fired set must equal the reference set computed from the chain alone, each recorded firing log must be a matching canonical log inside (registration block, expiry], and no trigger fires twice.",
    note="Go toolchain; pgmem; ethfake; the reference in checks/c16 (chain-only computation)", ref="§3 C16"),
+ "C02": dict(cat="exploration", tech="trace monitor on the real keyper's trigger channel judged against database snapshots; generated block/registration/eon-state histories; shares messages of the real KeyShareHandler + middleware matched against observed triggers",
+   text="A real shutterservice.Keyper runs processNewBlock over histories of blocks (increasing/equal/decreasing timestamps) with three keyper sets in generated DKG/membership/activation states, identities with release times at T-1/T/T+1, event-trigger rows fired/not fired/decrypted, decrypted flags set through the real queries and restarts; every trigger is judged identity by identity (strictly later timestamp, activation reached, fired no later than expiry, member, newest eon succeeded, not decrypted, sorted and distinct, one set per trigger), and every shares message sent must repeat an observed trigger.",
+   note="Go toolchain; pgmem; ethfake; gossipnet Service node; shutterservice verif hooks (VerifNewKeyper, VerifProcessNewBlock)", ref="§3 C02"),
 }
 
 NOT_APPLICABLE = {
